@@ -199,6 +199,55 @@ func (p c20) Run(c *fw.Case) {
 		c.Violation("the clone has a different number of Schema objects", wit(map[string]any{"original_objects": len(po), "clone_objects": len(pc)}))
 		return
 	}
+	if c.Idx%3 == 1 {
+		// a clone is a Schema like any other: edited in Go (sub-schemas added where there were none, containers extended) and
+		// cloned again. The second clone shares nothing with the first.
+		e := s.CloneSchemas()
+		added := 0
+		for node := range snap.Pointers[jsonschema.Schema](e) {
+			v := reflect.ValueOf(node).Elem()
+			for i := 0; i < v.NumField(); i++ {
+				if !v.Type().Field(i).IsExported() || r.IntN(3) != 0 {
+					continue
+				}
+				fv := v.Field(i)
+				switch x := fv.Interface().(type) {
+				case *jsonschema.Schema:
+					if x == nil {
+						fv.Set(reflect.ValueOf(&jsonschema.Schema{Title: "added after the first clone"}))
+						added++
+					}
+				case []*jsonschema.Schema:
+					fv.Set(reflect.ValueOf(append(x, &jsonschema.Schema{Title: "appended after the first clone"})))
+					added++
+				case map[string]*jsonschema.Schema:
+					if x == nil {
+						x = map[string]*jsonschema.Schema{}
+						fv.Set(reflect.ValueOf(x))
+					}
+					x["zz-added"] = &jsonschema.Schema{Title: "inserted after the first clone"}
+					added++
+				}
+			}
+		}
+		var d *jsonschema.Schema
+		if !c.CallChecked("CloneSchemas", map[string]any{"schema": json.RawMessage(m0), "note": "clone of an edited clone"}, func() { d = e.CloneSchemas() }) {
+			return
+		}
+		c.Eval(1)
+		pe, pd := snap.Pointers[jsonschema.Schema](e), snap.Pointers[jsonschema.Schema](d)
+		for p := range pd {
+			if pe[p] {
+				c.Violation("the clone of an edited clone shares a Schema object with it", wit(map[string]any{"shared_object_title": p.Title, "objects_added_after_the_first_clone": added}))
+				return
+			}
+		}
+		if len(pe) != len(pd) {
+			c.Violation("the clone of an edited clone has a different number of Schema objects", wit(map[string]any{"edited_clone_objects": len(pe), "second_clone_objects": len(pd), "objects_added_after_the_first_clone": added}))
+			return
+		}
+		c.Count("clones_of_edited_clones", 1)
+	}
 	// a parent holding both
 	_, e1, ok := resolveSchema(c, &jsonschema.Schema{AllOf: []*jsonschema.Schema{s}}, "parent(original)")
 	if !ok {
